@@ -1231,10 +1231,17 @@ def r03_7(ctx):
         if '::draw_text' in q or '::draw_glyphs' in q:
             continue
         for bi, d, ct in calls_in(ctx, b):
-            if d != 'raqote::geom::intrect':
+            if d == 'raqote::geom::intrect':
+                x1, y1, x2, y2 = ct[2]
+            elif d and d.endswith('Box2D::<T, U>::new') and len(ct[2]) == 2:
+                # the same rectangle spelled Box2D::new(point(x1, y1), point(x2, y2)): (min, max), not (origin, size)
+                p1, p2 = strip_all(ct[2][0]), strip_all(ct[2][1])
+                if not (is_call(p1, 'Point2D::<T, U>::new', 'euclid::point2') and is_call(p2, 'Point2D::<T, U>::new', 'euclid::point2') and len(p1[2]) == 2 and len(p2[2]) == 2):
+                    continue
+                (x1, y1), (x2, y2) = p1[2], p2[2]
+            else:
                 continue
             n += 1
-            x1, y1, x2, y2 = ct[2]
             for (lo, hi, ax) in ((x1, x2, 'x'), (y1, y2, 'y')):
                 if is_extent(hi):
                     ok = const_val(lo) == 0
@@ -1280,6 +1287,14 @@ def r03_5(ctx):
                 col = dict(payload[4]).get('color') if payload[0] == 'agg' else None
                 okc = col is not None and is_call(col, 'sw_composite::alpha_mul') and is_call(col[2][0], 'SolidSource::to_u32') and is_call(col[2][1], 'alpha_to_alpha256') and is_abyte(col[2][1][2][0])
                 ctx.check(okc, R, sk + '|whole-word scale', b.loc(s['sp']), 'color = alpha_mul(c.to_u32(), alpha_to_alpha256(alpha))', 'the solid colour is %s, expected alpha_mul(c.to_u32(), alpha_to_alpha256(alpha))' % (fmt(b, col) if col else '?'))
+                if okc:
+                    # ... of the source's own colour: the payload of Source::Solid, not a colour rebuilt from it (alpha_mul
+                    # scales all four lanes once; a lane scaled beforehand is scaled twice and the pixel is no longer premultiplied)
+                    rc = strip_all(col[2][0][2][0])
+                    while rc[0] in ('deref', 'ref'):
+                        rc = strip_all(rc[1])
+                    own = rc[0] == 'field' and not any(x[0] in ('agg', 'call') for x in subterms(rc))
+                    ctx.check(own, R, sk + '|the source colour itself', b.loc(s['sp']), 'the scaled word is the Solid payload', 'the colour handed to alpha_mul is %s, not the Source::Solid payload itself: a channel that was already scaled is scaled again by the whole-word multiply' % fmt(b, rc)[:120])
             continue
         # otherwise the arm must be taken only when alpha == 255
         gs = normalized_guards(ctx, b, bi)
